@@ -214,7 +214,7 @@ fn run(c: &mut Ctx, t: &[&str], precap: Option<usize>) -> Option<Out> {
       let mut sq = crate::serde_script::Sq::parse(t[2], t[3])?;
       if crate::serde_script::shadow_in_place(v, &mut sq) { Out::Unit } else { Out::Text("err".to_string()) }
     }
-    "shrink_to_fit" | "raw_part" => Out::Unit,
+    "shrink_to_fit" | "raw_part" | "views" => Out::Unit,
     "split_spare" | "raw_parts" => Out::Nums(vec![len as u64]),
     _ => return crate::shadow_iter::run2(c, t),
   })
